@@ -3,6 +3,7 @@ import Driver.Sort
 import Driver.Codec
 import Driver.Cfg
 import Driver.Corr
+import Driver.Oneway
 /-!
   The model driver (line protocol, DESIGN.md 3.5): reads one case per line on
   stdin, runs the executable Lean model, prints what it predicts.
@@ -37,5 +38,6 @@ def main (args : List String) : IO UInt32 := do
   | ["sort"] => loop stdin sortLine; return 0
   | ["codec"] => loop stdin codecLine; return 0
   | ["corr"] => loop stdin corrLine; return 0
+  | ["oneway"] => loop stdin onewayLine; return 0
   | ["cfg"] => loopSt stdin cfgStep {}; return 0
   | _ => IO.eprintln "usage: driver <engine>"; return 2
